@@ -4,7 +4,7 @@
    (exactly the texts in which the parts are what the author wrote: a delimiter inside a part would end it);
    render n [(k1,v1);..] is the text n{k1=v1,..};  trim_tags trims every key and value (strings.TrimSpace, Unicode White_Space);
    padded s s' := s' is s with white space added on both sides. *)
-From Pyro Require Import Model.Base Model.Key Proofs.BcmpProofs Proofs.KeyProofs.
+From Pyro Require Import Model.Base Model.Key Proofs.BcmpProofs Proofs.KeyProofs Proofs.Utf8Proofs.
 From Coq Require Import Permutation.
 
 (* --- order of distinct tags and white space around name, keys, values do not matter --- *)
@@ -105,3 +105,14 @@ Example C15_split_nonvacuous :
   from_tree_to_main_key (tree_key m 10 (-62135596801)%Z) = Some (normalized m) /\
   from_tree_to_dict_key (tree_key m 10 (-62135596801)%Z) = Some [97; 58; 98].
 Proof. vm_compute. auto. Qed.
+
+(* --- the model sorts tag keys by code points, Go by the bytes of the UTF-8 text: the same order --- *)
+Theorem C15_utf8_order : forall s t, Forall valid_rune s -> Forall valid_rune t ->
+  bcmp (utf8 s) (utf8 t) = bcmp s t.
+Proof. exact utf8_order. Qed.
+Print Assumptions C15_utf8_order.
+
+Example C15_utf8_order_nonvacuous :
+  Forall valid_rune [65535; 97] /\ Forall valid_rune [65536] /\
+  bcmp (utf8 [65535; 97]) (utf8 [65536]) = Lt /\ utf8 [65536] = [240; 144; 128; 128].
+Proof. repeat split; try (repeat constructor; reflexivity); vm_compute; reflexivity. Qed.
